@@ -2,8 +2,29 @@
 """Regenerates MANIFEST.json from the table below (kept in one place so it is always valid)."""
 import json, subprocess
 
+A_NOTE = "Real ntex-mqtt code in ntex's own single-threaded runtime (FIFO task order), in-memory transport (ntex-io IoTest), vendored ntex-util with a virtual clock; harness peer uses the independent reference codec. Bounded: numbers of packets/senders/handlers and deviations as stated in the evidence."
+A_TECH = "stateless deviation-bounded DFS (explicit enumeration of all environment-event schedules of the real implementation under a single-stepped runtime), oracle = invariant / reference model on every step"
+B_TECH = "bounded-exhaustive input enumeration of the real code against an independent reference model (explicit enumeration of a finite input space)"
 CHECKS = {
- "C18": dict(engine="enum", technique="bounded-exhaustive input enumeration (explicit-state, all strings up to a length bound) against a reference model",
+ "C01": dict(engine="enum", technique=B_TECH,
+   text="Every value of a deterministic product generator (all packet kinds, presence bits of every optional field/property, all reason codes, boundary lengths, Remaining-Length boundaries) is encoded by the library, decoded by an independent spec decoder, decoded by the library, and re-encoded by the spec encoder in every property order; all 2^28 variable-byte integers (thorough) as Subscription Identifier and Remaining Length. Exhaustive over that finite domain.",
+   note="Trusts refmqtt.rs (reference codec written from the OASIS specs). String/payload contents outside the alphabets are not varied.", design="4/C01"),
+ "C02": dict(engine="enum", technique=B_TECH,
+   text="All byte strings of length <= 3 in every fragmentation, first-byte x Remaining-Length x 8-symbol bodies, and every single-byte substitution / truncation / length edit / splice of a corpus of valid short frames are fed to the v3, v5 and version-sniffing decoders; oracle: no panic (overflow checks on), consumption never past the reference frame, listed malformation classes rejected, oversize rejected at the header, accepted packets stable under re-encoding.",
+   note="Only the malformation classes named in the property are demanded to be rejected; classification by refmqtt.rs. Hook verif::sniff exposes the private sniffing decoder.", design="4/C02"),
+ "C05": dict(engine="simnet", technique=A_TECH,
+   text="All schedules (orders of Start/PeerAck/PeerAckBatch/Cancel/window events at quiescence plus <=1 (quick) / <=2 (thorough) injections while tasks are runnable) of cap+1..cap+2 application tasks using the awaiting send APIs against send limits 1..3 in all four roles; the window invariant is evaluated after every task poll and every event.",
+   note=A_NOTE, design="4/C05"),
+ "C09": dict(engine="enum", technique=B_TECH,
+   text="~1500 v5 packet values weighted to shortenable packets x every outbound limit 0..160 (quick) / 0..720 (thorough) plus boundary grid x problem-information on/off, plus values whose encoding must fail and all v3 generator values; oracle: one reference frame, truthful length, within limit, only whole Reason String / User Properties dropped, failed encode leaves zero bytes, no panic.",
+   note="Trusts refmqtt.rs; the encoder may be conservative by up to 20 bytes before 'dropped although it fits' is reported.", design="4/C09"),
+ "C10": dict(engine="enum+simnet", technique=B_TECH + "; connection part: " + A_TECH,
+   text="Codec part: streams of valid packets with payload sizes around chunk/varint boundaries, all 2^(n-1) fragmentations up to 11/14 bytes and every single/double cut and fixed chunk size beyond, x min_chunk_size {0,1,4,1024,32768}, compared with the reference parse of the unfragmented stream.",
+   note="Trusts refmqtt.rs. Connection part not built yet in this revision.", design="4/C10"),
+ "C13": dict(engine="simnet", technique=A_TECH,
+   text="Same world as C05 plus readiness futures, cancellation of parked tasks and back-pressure episodes; liveness is judged at quiescence after the correct peer has acknowledged everything it received: every non-cancelled send/ready future must have completed and the connection must be up.",
+   note=A_NOTE + " Cancellation is applied to waiting (parked) futures only, as in the statement.", design="4/C13"),
+ "C18": dict(engine="enum", technique=B_TECH,
    text="Every string over {a,b,$,/,+,#} up to length 6 (quick) / 8 (thorough) is validated, every (valid filter, topic<=6/7) pair is matched, and every ordered pair of valid filters up to length 5/6 is tested for covering, against a 40-line reference transcribed from MQTT 4.7; exhaustive within those bounds.",
    note="Trusts the reference in harness/src/c18.rs; alphabet of 6 ASCII symbols plus two multi-byte characters; hook verif::topic_is_valid exposes the dispatcher's validator.",
    design="4/C18"),
@@ -42,7 +63,7 @@ for p in props:
           "thorough_cmd": f"bin/check {i} thorough",
           "evidence_file": f"/verif/evidence/{i}.json",
           "replay_cmd_template": "bin/check replay {path}",
-          "engine": c['engine'],
+          "engine": c['engine'].split('+')[0],
           "level_claimed": {"category": "model_checking", "text": c['text'], "design_ref": c['design']},
           "level_note": c['note'],
           "technique": c['technique'],
